@@ -206,47 +206,38 @@ def print_assumptions(uid, module, theorems):
     return res
 
 
+def _strip_comments(txt):
+    out, depth, i = [], 0, 0
+    while i < len(txt):
+        if txt.startswith("(*", i):
+            depth += 1
+            i += 2
+        elif txt.startswith("*)", i) and depth > 0:
+            depth -= 1
+            i += 2
+        else:
+            out.append(txt[i] if depth == 0 or txt[i] == "\n" else " ")
+            i += 1
+    return "".join(out)
+
+
 def audit_sources():
-    """grep the development for anything that would declare an axiom or
-    switch off a kernel check.  Returns list of 'file:line: text'."""
+    """grep the development (comments stripped) for anything that would declare
+    an axiom or switch off a kernel check, and for Variable/Hypothesis outside a
+    Section.  Returns list of 'file:line: text'."""
     hits = []
-    for p in glob.glob(os.path.join(THEORIES, "**", "*.v"), recursive=True):
-        txt = open(p, errors="replace").read()
-        # strip comments (nested) before matching
-        out, depth, i = [], 0, 0
-        while i < len(txt):
-            if txt.startswith("(*", i):
-                depth += 1
-                i += 2
-            elif txt.startswith("*)", i) and depth > 0:
-                depth -= 1
-                i += 2
-            else:
-                out.append(txt[i] if depth == 0 or txt[i] == "\n" else " ")
-                i += 1
-        for n, line in enumerate("".join(out).split("\n"), 1):
-            if FORBIDDEN.search(line):
-                hits.append("%s:%d: %s" % (os.path.relpath(p, ROOT), n, line.strip()))
-            if re.match(r"\s*(Variable|Variables|Hypothesis|Hypotheses|Context)\b", line):
-                # allowed only inside a Section: checked by coqc itself?  No —
-                # Coq accepts them at top level as axioms; detect by tracking.
-                pass
-    hits += _toplevel_variables()
-    return hits
-
-
-def _toplevel_variables():
-    hits = []
-    for p in glob.glob(os.path.join(THEORIES, "**", "*.v"), recursive=True):
+    for p in sorted(glob.glob(os.path.join(THEORIES, "**", "*.v"), recursive=True)):
+        body = _strip_comments(open(p, errors="replace").read())
         depth = 0
-        for n, line in enumerate(open(p, errors="replace"), 1):
+        for n, line in enumerate(body.split("\n"), 1):
             s = line.strip()
+            if FORBIDDEN.search(line):
+                hits.append("%s:%d: %s" % (os.path.relpath(p, ROOT), n, s))
             if re.match(r"Section\s+\w+\s*\.", s):
                 depth += 1
             elif re.match(r"End\s+\w+\s*\.", s) and depth > 0:
-                # may also close a Module; Modules are not used with Variables here
                 depth -= 1
-            elif depth == 0 and re.match(r"(Variable|Variables|Hypothesis|Hypotheses)\b", s):
+            elif depth == 0 and re.match(r"(Variable|Variables|Hypothesis|Hypotheses|Context)\b", s):
                 hits.append("%s:%d: top-level %s" % (os.path.relpath(p, ROOT), n, s))
     return hits
 
